@@ -17,12 +17,13 @@ class Battery:
         self.failures = []
         self.samples = []
 
-    def case(self, sig, nontrivial=True):
+    def case(self, sig, nontrivial=True, desc=None):
         self.cases += 1
         if nontrivial:
             self.distinct.add(sig if isinstance(sig, (str, int)) else repr(sig))
         if len(self.samples) < 3 and nontrivial and self.cases % 97 == 1:
-            self.samples.append(sig if isinstance(sig, (str, int, list, dict)) else repr(sig))
+            d = desc if desc is not None else sig
+            self.samples.append(d if isinstance(d, (str, int, list, dict)) else repr(d))
 
     def fail(self, key, what, case, fn=""):
         if len(self.failures) < 25:
